@@ -7,6 +7,8 @@
 (*   tail   code points after the last terminator                                 *)
 (*   second_same  normalising the output again reproduced it byte for byte        *)
 (*   dest_same    stdout, -o file and in-place destinations hold the same text    *)
+(*   multi_same   given together with another (longer) file in ONE invocation, the  *)
+(*                output for this file is what it is when the file is given alone   *)
 EXTENDS Naturals, Sequences, FiniteSets, TLC, Json, IOUtils, Norm
 VARIABLES ti, rej
 Traces == JsonDeserialize(IOEnv.TRACE_FILE)
@@ -23,6 +25,7 @@ Clause(tr) ==
      ELSE IF tr.tail # LFc THEN "layout_tail"
      ELSE IF ~tr.second_same THEN "not_idempotent"
      ELSE IF ~tr.dest_same THEN "destinations_differ"
+     ELSE IF ~tr.multi_same THEN "several_files_in_one_run"
      ELSE ""
 Init == ti = 1 /\ rej = {}
 Step == /\ ti <= Len(Traces)
